@@ -18,17 +18,10 @@ func (g *gate) signal() { g.w = 1 }
 
 //go:norace
 func (g *gate) wait() {
-	for i := 0; ; i++ {
-		if g.w == 1 {
-			g.w = 0
-			return
-		}
-		if i%16 == 15 {
-			runtime.Gosched()
-		} else {
-			spinPause()
-		}
+	for g.w != 1 {
+		runtime.Gosched()
 	}
+	g.w = 0
 }
 
 //go:norace
